@@ -8,7 +8,9 @@ bad=0
 for p in /verif/selftest/harmless/*.diff; do
   cd $WT && git checkout -q -- . && git apply "$p" 2>/dev/null || { echo "$(basename $p): does not apply to HEAD (skipped)"; continue; }
   for u in walk flex flexmut vec io_blocking io_async portable_ops; do
-    out=$(cd /verif && python3 tools/unit.py $u --repo $WT 2>&1 | grep -E "^(verified=|ERR|LOST|TOOL)" | head -2)
+    all=$(cd /verif && python3 tools/unit.py $u --repo $WT 2>&1)
+    echo "$all" | grep -E "^LOST LABEL" | sed "s/^/$(basename $p) [$u] one label degraded: /" | cut -c1-170
+    out=$(echo "$all" | grep -E "^(verified=|ERR|LOST ANCHOR|TOOL)" | head -2)
     case "$out" in
       verified=*" failed=0 "*) ;;
       LOST*|*TOOL*) echo "$(basename $p) [$u] degraded: $(echo "$out" | head -1 | cut -c1-120)";;
